@@ -290,7 +290,7 @@ def run_units(snap, units, logdir, log):
                 wall_s=0, trusted=[], raw="")
             log("  [verus] %-40s UNDECIDED %s" % (name, e))
             continue
-        key = sha("verus", VERUS_VERSION, text)
+        key = sha("verus", VERUS_VERSION, text, " ".join(u.get("args", [])))
         c = cache_get(key)
         if c is not None:
             c["fresh"] = False
